@@ -95,7 +95,8 @@ Record call := mkCall {
 
 Record sys := mkSys {
   s_nio : nat;              (* io threads *)
-  s_readd : bool;           (* EPollPoller::updateChannel re-ADDs a kDeleted channel whose interest is empty *)
+  s_readd : bool;           (* EPollPoller::updateChannel ADDs a kNew/kDeleted channel even when its interest is
+                               empty (the code before the fix of F-15; Gen_C02.epoll_registers_empty_interest) *)
   s_conns : list lc;        (* every connection ever created; the index is its id *)
   s_loops : list lq;        (* s_nio + 1 loops *)
   s_rr : nat;               (* EventLoopThreadPool::next_ *)
@@ -160,8 +161,7 @@ Definition set_chan (k : lc) (wr rd : bool) (a : bool) (p : pidx) : lc :=
 Definition chan_update (readd : bool) (k : lc) (wr rd : bool) : lc :=
   let none := negb (wr || rd) in
   match k_pidx k with
-  | PNew => set_chan k wr rd true PAdded
-  | PDeleted => if none && negb readd then set_chan k wr rd true PDeleted else set_chan k wr rd true PAdded
+  | PNew | PDeleted => if none && negb readd then set_chan k wr rd true PDeleted else set_chan k wr rd true PAdded
   | PAdded => if none then set_chan k wr rd true PDeleted else set_chan k wr rd true PAdded
   end.
 
@@ -254,6 +254,7 @@ Definition handle_close (s : sys) (thr c : nat) : M :=
   match getc s c with
   | None => Fault
   | Some k =>
+      if negb (thr =? k_loop k) then Fault else                      (* assertInLoopThread *)
       if negb (k_closable k) then Fault else                         (* assert(kConnected || kDisconnecting) *)
       let k1 := set_life k Disconnected (k_ups k) (S (k_downs k)) in
       bind (emit (put s c (chan_update (s_readd s) k1 false false)) [ODown thr c])
@@ -511,7 +512,7 @@ Definition ev_step (strict : bool) (s : sys) (c : nat) (e : kev) : M :=
       | KData => if k_rd k then emit s [OMsg thr c] else Rejected
       | KEof => if k_rd k then (if strict && orphan then Rejected else handle_close s thr c) else Rejected
       | KRdErr => if k_rd k then ret s else Rejected
-      | KHup => if strict && (k_none k || orphan) then Rejected else handle_close s thr c
+      | KHup => if strict && ((s_readd s && k_none k) || orphan) then Rejected else handle_close s thr c
       | KErr => ret s
       | KOut drained wc =>
           if k_wr k then
